@@ -648,6 +648,40 @@ class Inliner:
             h, recv = self._resolve(mname, cls_name, st.value)
             if h is not None and not h.is_gen:
                 return self._expand(h, st.value, recv, 'assign', targets=st.targets)
+        # `for t in gen_helper(..): BODY` with a one-yield generator helper: the helper's loop with BODY in place of the yield
+        if isinstance(st, ast.For) and not st.orelse and isinstance(st.iter, ast.Call):
+            h, recv = self._resolve(mname, cls_name, st.iter)
+            if h is not None and h.is_gen and h.tail_ok:
+                ys = [n for s_ in h.body for n in ast.walk(s_) if isinstance(n, (ast.Yield, ast.YieldFrom))]
+                body_ok = not any(isinstance(n, (ast.Break, ast.Continue)) and not _inside_inner_loop(n, st) for b_ in st.body for n in ast.walk(b_))
+                if len(ys) == 1 and isinstance(ys[0], ast.Yield) and ys[0].value is not None and body_ok:
+                    exp = self._expand(h, st.iter, recv, 'gen')
+                    if exp is not None:
+                        done = [False]
+
+                        def splice(stmts):
+                            out = []
+                            for s_ in stmts:
+                                if isinstance(s_, ast.Expr) and isinstance(s_.value, ast.Yield) and not done[0]:
+                                    done[0] = True
+                                    asg = ast.Assign(targets=[copy.deepcopy(st.target)], value=s_.value.value, lineno=getattr(s_, 'lineno', st.lineno))
+                                    for x in ast.walk(asg.targets[0]):
+                                        if isinstance(x, ast.Name):
+                                            x.ctx = ast.Store()
+                                    out.append(ast.copy_location(asg, s_))
+                                    out.extend(st.body)
+                                    continue
+                                for field in ('body', 'orelse', 'finalbody'):
+                                    sub = getattr(s_, field, None)
+                                    if isinstance(sub, list) and sub and isinstance(sub[0], ast.stmt) and not isinstance(s_, DEFS):
+                                        setattr(s_, field, splice(sub))
+                                for hd in getattr(s_, 'handlers', []) or []:
+                                    hd.body = splice(hd.body)
+                                out.append(s_)
+                            return out
+                        fused = splice(exp)
+                        if done[0]:
+                            return fused
         # hoisted forms
         headers = []
         if isinstance(st, (ast.Assign, ast.AugAssign, ast.AnnAssign, ast.Expr, ast.Return)):
@@ -774,6 +808,20 @@ class Inliner:
                     if isinstance(st, ast.ClassDef) and st.name == cname:
                         st.body = [s for s in st.body if s is not h.node] or [ast.Pass()]
             self.log.append(f'{mname}:{h.qual} inlined at {self.inlined_sites[(mname, cname, name)]} call site(s)')
+
+
+def _inside_inner_loop(n, outer):
+    """the break / continue `n` belongs to a loop nested inside `outer` (not to `outer` itself)"""
+    def find(node, stack):
+        if node is n:
+            return stack
+        for c in ast.iter_child_nodes(node):
+            r = find(c, stack + ([node] if isinstance(node, LOOPS) else []))
+            if r is not None:
+                return r
+        return None
+    st = find(outer, [])
+    return st is not None and len(st) > 1
 
 
 def _replace_node(root, old, new):
